@@ -28,6 +28,8 @@ pub use peer::Peer;
 
 mod request_handler;
 mod wire;
+#[cfg(bmwill_anemo_verif)]
+pub use wire::verif_hooks as wire_hooks;
 
 #[cfg(test)]
 mod tests;
